@@ -75,6 +75,17 @@ func grammarMain(r *run.Runner, spans bool) {
 				for _, m := range modes {
 					pr := gen.Print(whereProgram(gen.WrapRoot(e, m)))
 					grammarCase(w, pr.Layout(pr.Uniform(" ")), spans, "expr")
+					if n <= 2 {
+						// every leaf the same identifier, in positions where the parser looks ahead for `name =`
+						same := gen.WrapRoot(gen.Instantiate(sh, func(int) gen.Expr { return gen.Col("a") }), m)
+						for _, prog := range []*gen.Program{
+							gen.Single(&gen.Pipeline{Source: gen.Ident{Name: "T"}, Ops: []gen.Op{&gen.Extend{Cols: []gen.Column{{X: same}, {X: same}}}}}),
+							gen.Single(&gen.Pipeline{Source: gen.Ident{Name: "a"}, Ops: []gen.Op{&gen.Summarize{Cols: []gen.Column{{X: same}}, By: []gen.Column{{X: same}}, HasBy: true}}}),
+						} {
+							ps := gen.Print(prog)
+							grammarCase(w, ps.Layout(ps.Uniform(" ")), spans, "same-leaves")
+						}
+					}
 					if n <= 2 && m == gen.Minimal {
 						// the tree does not depend on layout: no blanks at all, newlines, comments
 						for _, sep := range layoutSeps[1:] {
